@@ -132,6 +132,8 @@ def make_dag(rng, nmax=10):
   root = g.dag()
   if rng.random() < 0.2:
     root = gen.Seq('list', [g.child(1), root])
+  # sub-configurations below **kwargs arguments, set in different orders on different nodes
+  gen.kwargs_rename(root, rng, 0.5)
   return root
 
 
